@@ -1,0 +1,42 @@
+//go:build verif
+
+/*
+SPDX-License-Identifier: Apache-2.0
+*/
+
+package subtle
+
+import "math/big"
+
+// This file is compiled only with the build tag `verif`. It exposes the unexported signature codecs of this
+// package unchanged, so that an external harness can compare them byte for byte with a formal model.
+
+// VerifIEEEP1363Encode calls ieeeP1363Encode.
+func VerifIEEEP1363Encode(r, s *big.Int, curveName string) ([]byte, error) {
+	return ieeeP1363Encode(&Secp256k1Signature{R: r, S: s}, curveName)
+}
+
+// VerifIEEEP1363Decode calls ieeeP1363Decode.
+func VerifIEEEP1363Decode(b []byte) (*big.Int, *big.Int, error) {
+	sig, err := ieeeP1363Decode(b)
+	if err != nil {
+		return nil, nil, err
+	}
+
+	return sig.R, sig.S, nil
+}
+
+// VerifASN1Encode calls asn1encode.
+func VerifASN1Encode(r, s *big.Int) ([]byte, error) {
+	return asn1encode(&Secp256k1Signature{R: r, S: s})
+}
+
+// VerifASN1Decode calls asn1decode.
+func VerifASN1Decode(b []byte) (*big.Int, *big.Int, error) {
+	sig, err := asn1decode(b)
+	if err != nil {
+		return nil, nil, err
+	}
+
+	return sig.R, sig.S, nil
+}
